@@ -13,6 +13,31 @@ CLAIMED = {
    note="Trusted: TLC, clang sanitizers, the projection code in harness/c19_*.c. Bounds in spec/*_mc.cfg, *_t.cfg.",
    technique="TLA+ refinement spec + TLC BFS; exhaustive transition replay into the header code (direction A)",
    design="DESIGN.md §4 C19, §3.7"),
+ "C02": dict(level="model_checking",
+   text="MIRInsn.tla (with W64/FPx value domains) transcribes MIR.md instruction by instruction; TLC evaluates every integer/FP opcode, "
+        "load/store type, compare-and-branch and overflow-flag branch over a boundary grid (complete for the stated grid), and each row is "
+        "replayed through one-instruction functions in every operand shape (reg, imm, memory with base/disp/index*scale, dst==src aliasing, "
+        "constant operands, flag state before an overflow insn) on the interpreter and on code generated at the optimisation levels.",
+   note="Trusted: TLC, the W64/FPx modules (cross-checked against big integers by tools/w64_selfcheck.py), gcc host arithmetic only for FP results "
+        "the exact domain reports inexact. Undefined cases (shift counts, division by zero, INT_MIN/-1, FP->int range) are not replayed.",
+   technique="TLA+ instruction semantics evaluated by TLC as a complete table; table rows replayed into interpreter and generated code",
+   design="DESIGN.md §4 C02, §3.1"),
+ "C01": dict(level="model_checking",
+   text="MIRProg.tla builds well-formed MIR programs nondeterministically (templates over the instruction vocabulary incl. irreducible control flow, "
+        "switch, laddr/jmpi, alloca, calls, overflow insns, f/d/ld arithmetic) and MIRSem.tla executes them; TLC simulation yields programs whose "
+        "run is defined, with their observations. Each is run under the interpreter and generated code at -O0..-O3; any difference from the "
+        "interpreter in result, caller-visible memory or external-call log is a violation.",
+   note="The specification certifies well-definedness (division, shifts, uninitialised reads, address-dependent values, undefined upper halves of "
+        "32-bit results, inexact FP) so UB programs are never replayed. Bounded: 12 random slots per program, sampled not exhaustive.",
+   technique="TLA+ abstract machine + program constructor; TLC-simulated behaviours replayed on interpreter vs generator (direction A)",
+   design="DESIGN.md §4 C01, §3.3"),
+ "C04": dict(level="model_checking",
+   text="Same TLA+ machine, used as the independent oracle for the program as written (real calls, fresh alloca blocks, argument narrowing, "
+        "result extension): programs biased to calls of small/recursive/alloca-using/multi-result helpers, branches and jumps are linked and "
+        "interpreted with calls as written, with every call as `inline`, and in a library with inlining disabled; each must equal the spec.",
+   note="Trusted: MIRSem.tla as transcription of MIR.md; sampled by TLC simulation, not exhaustive.",
+   technique="TLA+ abstract machine as oracle for MIR_link's simplifier/inliner; TLC behaviours replayed through the interpreter",
+   design="DESIGN.md §4 C04"),
 }
 NOT_YET = "not claimed yet: the specification/binding for this property is still under construction in this round (DESIGN.md §7 order)"
 
